@@ -2,6 +2,7 @@ import Tx3Proofs.C17
 import Tx3Proofs.C17Lower
 import Tx3Proofs.C17Used
 import Tx3Proofs.C06LowerAdhoc
+import Tx3Proofs.C17Input
 #print axioms Tx3.Tii.C17_same_spelling
 #print axioms Tx3.Tii.C17_required_are_declared
 #print axioms Tx3.Tii.dupNames_nil_iff
@@ -13,3 +14,5 @@ import Tx3Proofs.C06LowerAdhoc
 #print axioms Tx3.Lang.C17_reported_params_listed
 #print axioms Tx3.Lang.C17_used_is_required
 #print axioms Tx3.Lang.C17_lowered_full_requires_declared
+#print axioms Tx3.Lang.C17_input_fields_lowered
+#print axioms Tx3.Lang.C17_min_amount_param_required
